@@ -41,6 +41,7 @@ def run(check: Check, repo: Repo, tier: str) -> None:
     X.nulled_work_aborted(check, repo)
     X.work_always_collected(check, repo)
     X.once_flag_first(check, repo)
+    X.no_wait_after_flag(check, repo)
     X.hook_after_drain(check, repo)
     X.advance_close_same_object(check, repo)
     X.cleanup_settles_pending(check, repo)
